@@ -207,9 +207,17 @@ func readJournalRecord(buf []byte) (rec journalRec, err error) {
 			rec.kind = journalRecKind(buf[0])
 			buf = buf[journalRecKindSz:]
 		case addrJournalRecTag:
+			if len(buf) < journalRecAddrSz {
+				err = fmt.Errorf("truncated address field in journal record")
+				return
+			}
 			copy(rec.address[:], buf)
 			buf = buf[journalRecAddrSz:]
 		case timestampJournalRecTag:
+			if len(buf) < journalRecTimestampSz {
+				err = fmt.Errorf("truncated timestamp field in journal record")
+				return
+			}
 			unixSeconds := readUint64(buf)
 			rec.timestamp = time.Unix(int64(unixSeconds), 0)
 			buf = buf[journalRecTimestampSz:]
@@ -223,6 +231,10 @@ func readJournalRecord(buf []byte) (rec journalRec, err error) {
 			err = fmt.Errorf("unknown record field tag: %d", tag)
 			return
 		}
+	}
+	if len(buf) < journalRecChecksumSz {
+		err = fmt.Errorf("truncated checksum field in journal record")
+		return
 	}
 	rec.checksum = readUint32(buf[:journalRecChecksumSz])
 	return
